@@ -50,6 +50,8 @@ pub struct ScriptedReceiver {
     pub ack_eof: bool,
     /// send Finished this long after the last scripted NAK / the EOF, whichever is later
     pub finish_after_ms: u64,
+    /// after the EOF: this many Keep Alive PDUs, this many ms apart (the only sign of life until Finished)
+    pub keepalives: Option<(u64, u32)>,
     arrivals: usize,
     header: Option<PDUHeader>,
     eof_seen: bool,
@@ -59,7 +61,7 @@ pub struct ScriptedReceiver {
 impl ScriptedReceiver {
     pub fn new(me: Ent, injects: Vec<NakInject>, ack_eof: bool, finish_after_ms: u64) -> Self {
         let n = injects.len();
-        ScriptedReceiver { me, injects, ack_eof, finish_after_ms, arrivals: 0, header: None, eof_seen: false, fired: vec![false; n], finished_sent: false }
+        ScriptedReceiver { me, injects, ack_eof, finish_after_ms, keepalives: None, arrivals: 0, header: None, eof_seen: false, fired: vec![false; n], finished_sent: false }
     }
     fn nak(&self, reqs: &[(u64, u64)]) -> Option<PDU> {
         let h = self.header.as_ref()?;
@@ -98,6 +100,12 @@ impl Peer for ScriptedReceiver {
                         last = last.max(inj.after_eof_ms);
                     }
                 }
+                if let Some((gap, n)) = self.keepalives {
+                    for j in 1..=n {
+                        ctx.timer(50, gap * j as u64);
+                    }
+                    last = last.max(gap * n as u64);
+                }
                 ctx.timer(1, last + self.finish_after_ms);
             }
         }
@@ -110,6 +118,10 @@ impl Peer for ScriptedReceiver {
                 if let Some(p) = self.nak(&self.injects[i].requests.clone()) {
                     ctx.send(0, p, 0);
                 }
+            }
+        } else if tag == 50 {
+            if let Some(h) = self.header.clone() {
+                ctx.send(0, mk_pdu(&h, Direction::ToSender, PDUPayload::Directive(Operations::KeepAlive(KeepAlivePDU { progress: 0 }))), 0);
             }
         } else if tag == 1 && !self.finished_sent {
             self.finished_sent = true;
